@@ -9,7 +9,7 @@ from common import driver, proof_stage
 import subgen
 
 MODULES = ["CobyqaVerif.Props.C15", "CobyqaVerif.Props.C15Loop", "CobyqaVerif.Props.C15Improve", "CobyqaVerif.Props.C15ImproveFast",
-           "CobyqaVerif.Props.C15ImproveReal"]
+           "CobyqaVerif.Props.C15ImproveReal", "CobyqaVerif.Props.C15Ctcg"]
 LEVEL = "proof"
 OWN = ("bounds", "radius", "inequality", "null-space")
 
@@ -37,32 +37,10 @@ def run_calls(chk, rng, replay, n_quick, n_thorough):
     return cases, out, ans, crashed
 
 
-def tcg_correspondence(rng, n_gen, nmax=4, whole=False):
-    """Tie of lean/CobyqaVerif/Alg/Tcg.lean (the loop the theorems of Props/C15Loop.lean are about) to the code: the
-    model is run in exact rational arithmetic (DriverAlg `tcg`) on the inputs given to the real
-    tangential_byrd_omojokun with improve_tcg=False; the two steps must agree to 1e-6 relative.  Exact rational
-    conjugate gradients cost exponentially in the number of passes: n <= 4, and cases the driver cannot finish in
-    time are counted as skipped."""
+def _stream_driver(lines, per_line):
+    """answers of DriverAlg to `lines`, in order, from several driver processes; None for a line given up"""
     import subprocess
-    import warnings
-    from fractions import Fraction as Fr
-    import exact
     from common import LEAN
-    import cobyqa.subsolvers as S
-    cases = [c for c in (subgen.gen(rng, "tangential") for _ in range(n_gen)) if c["n"] <= nmax]
-
-    def rl(v):
-        return " ".join(exact.rs(Fr(float(x))) for x in v)
-
-    def ol(v):
-        return " ".join("none" if not np.isfinite(x) else exact.rs(Fr(float(x))) for x in v)
-
-    def line(c):
-        n = c["n"]
-        xl, xu = np.minimum(c["xl"], 0.0), np.maximum(c["xu"], 0.0)
-        head = f"tcg2 {n} {4 * n + 8} {n + 2} 1" if whole else f"tcg {n} {4 * n + 8}"
-        return f"{head} | {rl(c['g'])} ; {rl(c['H'].ravel())} ; {ol(xl)} ; {ol(xu)} ; {exact.rs(Fr(float(c['delta'])))}"
-
     def stream(ls, per_line):
         """one driver process answers the lines in order; a line that is not answered within `per_line` seconds is
         given up (None), the process is killed and a new one takes the remaining lines"""
@@ -108,14 +86,43 @@ def tcg_correspondence(rng, n_gen, nmax=4, whole=False):
                 p.wait()
         return out
     from concurrent.futures import ThreadPoolExecutor
-    lines = [line(c) for c in cases]
     nw = min(8, max(1, (os.cpu_count() or 2) // 2))
     parts = [list(range(w, len(lines), nw)) for w in range(nw)]
     ans = [None] * len(lines)
     with ThreadPoolExecutor(max_workers=nw) as ex:
-        for idx, r in zip(parts, ex.map(lambda ix: stream([lines[t] for t in ix], 12), parts)):
+        for idx, r in zip(parts, ex.map(lambda ix: stream([lines[t] for t in ix], per_line), parts)):
             for t, a in zip(idx, r):
                 ans[t] = a
+    return ans
+
+
+def tcg_correspondence(rng, n_gen, nmax=4, whole=False):
+    """Tie of lean/CobyqaVerif/Alg/Tcg.lean (the loop the theorems of Props/C15Loop.lean are about) to the code: the
+    model is run in exact rational arithmetic (DriverAlg `tcg`) on the inputs given to the real
+    tangential_byrd_omojokun with improve_tcg=False; the two steps must agree to 1e-6 relative.  Exact rational
+    conjugate gradients cost exponentially in the number of passes: n <= 4, and cases the driver cannot finish in
+    time are counted as skipped."""
+    import subprocess
+    import warnings
+    from fractions import Fraction as Fr
+    import exact
+    from common import LEAN
+    import cobyqa.subsolvers as S
+    cases = [c for c in (subgen.gen(rng, "tangential") for _ in range(n_gen)) if c["n"] <= nmax]
+
+    def rl(v):
+        return " ".join(exact.rs(Fr(float(x))) for x in v)
+
+    def ol(v):
+        return " ".join("none" if not np.isfinite(x) else exact.rs(Fr(float(x))) for x in v)
+
+    def line(c):
+        n = c["n"]
+        xl, xu = np.minimum(c["xl"], 0.0), np.maximum(c["xu"], 0.0)
+        head = f"tcg2 {n} {4 * n + 8} {n + 2} 1" if whole else f"tcg {n} {4 * n + 8}"
+        return f"{head} | {rl(c['g'])} ; {rl(c['H'].ravel())} ; {ol(xl)} ; {ol(xu)} ; {exact.rs(Fr(float(c['delta'])))}"
+
+    ans = _stream_driver([line(c) for c in cases], 12)
     agree, skipped, mism = 0, 0, []
     for c, a in zip(cases, ans):
         if a is None:
@@ -136,6 +143,57 @@ def tcg_correspondence(rng, n_gen, nmax=4, whole=False):
     boundary = sum(1 for a in ans if a is not None and a.startswith("ok1"))
     return {"cases": len(cases), "agree": agree, "skipped_too_expensive": skipped, "mismatches": len(mism),
             **({"first_phase_ended_on_the_boundary": boundary} if whole else {})}, mism
+
+
+def ctcg_correspondence(rng, n_gen, nmax=4):
+    """Tie of lean/CobyqaVerif/Alg/Ctcg.lean (the loop the theorems of Props/C15Ctcg.lean are about) to the code: the model
+    is run in exact rational arithmetic (DriverAlg `ctcg`, projection by exact Gram-Schmidt, checked) on the inputs given
+    to the real constrained_tangential_byrd_omojokun with improve_tcg=False; the two steps must agree to 1e-6 relative."""
+    import warnings
+    from fractions import Fraction as Fr
+    import exact
+    import cobyqa.subsolvers as S
+    cases = [c for c in (subgen.gen(rng, "constrained_tangential") for _ in range(n_gen)) if c["n"] <= nmax]
+    # an all-zero row is counted by the code's pivoted QR as a working constraint of full rank (|r_kk| = 0 >= 10 eps n * 0),
+    # which removes a direction of the null space that an exact projection keeps: the code's projection still lies in the
+    # null space (what the theorems need) but is not THE orthogonal projection the driver computes - such inputs are
+    # left to the exact evaluation of the admissibility predicate on the real solver
+    n_zero = sum(1 for c in cases if any(not np.any(r) for r in c["aub"]) or any(not np.any(r) for r in c["aeq"]))
+    cases = [c for c in cases if not (any(not np.any(r) for r in c["aub"]) or any(not np.any(r) for r in c["aeq"]))]
+
+    def rl(v):
+        return " ".join(exact.rs(Fr(float(x))) for x in np.asarray(v, float).ravel())
+
+    def ol(v):
+        return " ".join("none" if not np.isfinite(x) else exact.rs(Fr(float(x))) for x in v)
+
+    def line(c):
+        n = c["n"]
+        xl, xu = np.minimum(c["xl"], 0.0), np.maximum(c["xu"], 0.0)
+        return (f"ctcg {n} {len(c['bub'])} {c['aeq'].shape[0]} {4 * n + 12} | {rl(c['g'])} ; {rl(c['H'])} ; {ol(xl)} ; {ol(xu)} ; "
+                f"{rl(c['aub'])} ; {rl(np.maximum(c['bub'], 0.0))} ; {rl(c['aeq'])} ; {exact.rs(Fr(float(c['delta'])))}")
+    ans = _stream_driver([line(c) for c in cases], 12)
+    agree, skipped, mism = 0, 0, []
+    for c, a in zip(cases, ans):
+        if a is None:
+            skipped += 1
+            continue
+        with warnings.catch_warnings(), np.errstate(all="ignore"):
+            warnings.simplefilter("ignore")
+            s = S.constrained_tangential_byrd_omojokun(c["g"], lambda v: c["H"] @ v, c["xl"].copy(), c["xu"].copy(), c["aub"].copy(), c["bub"].copy(),
+                                                       c["aeq"].copy(), c["delta"], False, improve_tcg=False)
+        if not a.startswith("ok"):
+            mism.append((c, "driver answered " + a[:40]))
+            continue
+        mdl = np.array([float(Fr(t)) for t in a.split()[1:]])
+        sc = max(float(np.linalg.norm(s)), float(np.linalg.norm(mdl)), 1e-300)
+        if float(np.linalg.norm(mdl - s)) <= 1e-6 * sc:
+            agree += 1
+        else:
+            mism.append((c, f"exact model step {mdl.tolist()} vs implementation {np.asarray(s).tolist()}"))
+    return {"cases": len(cases), "agree": agree, "skipped_too_expensive": skipped, "mismatches": len(mism),
+            "with_inequality_rows": sum(1 for c in cases if len(c["bub"])), "with_equality_rows": sum(1 for c in cases if c["aeq"].shape[0]),
+            "left_out_because_of_an_all_zero_row": n_zero}, mism
 
 
 def stats(out):
@@ -176,7 +234,10 @@ def run(chk, rng, replay=None):
     # the solver as a whole (both phases, improve_tcg=True) against Alg/TcgImprove.lean `tcgFull`
     wstat, wmism = tcg_correspondence(rng, 150 if chk.tier == "quick" else 3000, whole=True) if replay is None else ({}, [])
     chk.coverage["whole_solver_correspondence_tangential_both_phases"] = wstat
-    tmism = tmism + wmism
+    # the first phase of the linearly constrained solver against Alg/Ctcg.lean `ctcg`
+    cstat, cmism2 = (ctcg_correspondence(rng, 150, nmax=3) if chk.tier == "quick" else ctcg_correspondence(rng, 2500, nmax=4)) if replay is None else ({}, [])
+    chk.coverage["loop_model_correspondence_constrained_tangential_first_phase"] = cstat
+    tmism = tmism + wmism + cmism2
     chk.assumptions += ["kernel theorems are exact-arithmetic; the working-set / QR loops of the constrained solvers are not modelled and are covered by the sampled calls only",
                         "allowances for the linear constraints are proportional to eps n (|A||s| + |b|) (factor 1e3); bounds are checked exactly, the radius with relative slack 1e-12"]
     for c, what in crashed[:3]:
@@ -188,7 +249,7 @@ def run(chk, rng, replay=None):
                        "signature": {"failure": a[5:], "solver": c["kind"]}})
     if not fails and not crashed and tmism:
         c, what = tmism[0]
-        chk.violation({"property": "C15", "kind": "proof-or-correspondence-broken", "correspondence": "Alg/Tcg.lean, Alg/TcgImprove.lean (exact) vs tangential_byrd_omojokun(improve_tcg=False / True)",
+        chk.violation({"property": "C15", "kind": "proof-or-correspondence-broken", "correspondence": "Alg/Tcg.lean, Alg/TcgImprove.lean, Alg/Ctcg.lean (exact) vs tangential_byrd_omojokun(improve_tcg=False / True), constrained_tangential_byrd_omojokun(improve_tcg=False)",
                        "case": subgen.case_json(c), "difference": what, "mismatches": len(tmism)}, no_input=True)
     if not fails and not crashed and (not ok or other):
         rep = {"property": "C15", "kind": "proof-or-correspondence-broken", "broken": info.get("problems") if not ok else [a for _, _, a in other[:3]]}
